@@ -717,6 +717,34 @@ def associativity(i, j, neg):
     return native(run)
 
 
+SOFT_WORDS = ['open', 'Open', 'OPEN', 'close', 'CLOSE', 'clear', 'CLEAR', 'on', 'ON', 'at', 'AT', 'opened', 'closed', 'clearing']
+SOFT_TEMPLATES = [
+    'SELECT a FROM {w} = 1', 'SELECT a FROM {w}', 'SELECT a FROM {w}.year > 2014 CLOSE', 'PRINT FROM {w}', 'PRINT FROM {w} = 1 CLEAR',
+    'JOURNAL FROM {w} = 1', 'BALANCES FROM {w} AND x', 'SELECT {w} FROM #t', 'SELECT a AS {w}', 'SELECT a WHERE {w}',
+    'SELECT {w}(a)', 'SELECT a FROM {w}(1)', 'SELECT a FROM {w} ON 2019-01-01', 'SELECT a FROM {w} ON x', 'SELECT a FROM x {w}',
+    'SELECT a FROM x OPEN ON 2019-01-01 {w}', 'SELECT a FROM {w} {w}', 'BALANCES AT {w}', 'JOURNAL {w}', 'SELECT a ORDER BY {w}',
+    'SELECT a GROUP BY {w}', 'SELECT a FROM #t WHERE a = {w}', 'SELECT a FROM NOT {w}', 'SELECT a FROM {w} IS NULL',
+]
+
+
+@cond('C06.soft-keywords', quick=240, thorough=600,
+      bounds=f'{len(SOFT_TEMPLATES)} statement templates x {len(SOFT_WORDS)} words (the FROM-clause words OPEN / CLOSE / CLEAR / ON / AT, '
+             'which are not reserved, in several letter cases, and look-alike identifiers) placed where an identifier, an expression '
+             'or a clause keyword may stand: the shipped parser and the grammar-derived parser return the same tree or both reject',
+      symbolic='(none)', enumerated='template, word', params={'t': int, 'w': int}, group='C06.statement',
+      note='exhaustive inside the bound; the solver only enumerates (TatSu cannot run on symbolic text)')
+def soft_keywords(t, w):
+    t, w = enum_int(t, 0, len(SOFT_TEMPLATES) - 1), enum_int(w, 0, len(SOFT_WORDS) - 1)
+
+    def run():
+        text = SOFT_TEMPLATES[t].format(w=SOFT_WORDS[w])
+        shipped, derived = parse_both(text)
+        if derived != shipped:
+            return f'shipped-parser-differs-from-grammar: {text!r}'
+        return 'ok'
+    return native(run)
+
+
 # ---------------------------------------------------------------------------
 # statements: every clause combination and FROM form
 
